@@ -228,7 +228,7 @@ def r8(fx):
                  want='shown with its alpha, or refused with ValueError')
     fn = fx.fn('writers', 'write_ppm')
     for kw in ({}, {'dark': 'red', 'light': 'yellow'}, {'finder_dark': 'blue', 'data_light': '#eee', 'quiet_zone': 'aliceblue'}, {'dark': (0, 0, 139), 'timing_dark': (10, 20, 30)}) + CROSSED:
-        for size, scale, border in (((21, 21), 1, None), ((11, 11), 2.7, 1)):
+        for size, scale, border in (((21, 21), 1, None), ((11, 11), 2.7, 1)) + ((((45, 45), 1, 0),) if kw in ({}, {'dark': 'red', 'light': 'yellow'}) else ()):
             try:
                 m, rec, rs, _ = _run(fx, it, 'write_ppm', size, scale, border, kw=kw, typed=_typed(fx, size, kw))
                 cm = _colormap(fx, it, size, kw, 'write_ppm')
@@ -287,6 +287,9 @@ def r4(fx):
         yield _png_ob(fx, it, fn, f'dpi=300 {kw}', (11, 11), 2, 1, dict(kw, dpi=300))
     for kw in CROSSED:
         yield _png_ob(fx, it, fn, f'{kw} size=21 scale=1 border=None', (21, 21), 1, None, dict(kw))
+    # a symbol with version information (45 x 45): every module type occurs
+    for kw in ({}, {'dark': 'red', 'light': 'yellow'}, {'dark': (255, 0, 0, 128), 'light': None}):
+        yield _png_ob(fx, it, fn, f'{kw} size=45 scale=1 border=0', (45, 45), 1, 0, dict(kw))
     # everything transparent is a (degenerate) member of the colour domain, too
     yield _png_ob(fx, it, fn, "{'dark': None, 'light': None} size=11 scale=2 border=1", (11, 11), 2, 1, {'dark': None, 'light': None})
     m, rec, rs, zs = _run(fx, it, 'write_png', (11, 11), 1, 0, kw={'dpi': 300, 'compresslevel': 3}, typed=_typed(fx, (11, 11), {}))
@@ -359,6 +362,13 @@ def r9(fx):
     for d, l in (((255, 0, 0, 0.5), '#fff'), ((255, 0, 0, 0.25), None), ((0, 0, 0, 1.0), '#fff'), ((255, 0, 0, 1), '#fff'), ((255, 0, 0, 1), None),
                  ((255, 0, 0, 254), '#fff'), ((255, 0, 0, 0), '#fff'), ('#000', (0, 0, 255, 0.75)), ('#000', (255, 255, 255, 1))):
         yield _png_ob(fx, it, fn, f'dark={d!r} light={l!r} {{}}', (11, 11), 1, 1, dict(dark=d, light=l))
+
+
+@rule('C09', 'R10', 6, 'colour map of the colourful raster writers: with only dark / light given every module type falls back to the colour of its own polarity (C11.R4)')
+def r10(fx):
+    for o in p11.r4(fx):
+        if 'fallback colours follow polarity' in o.key or 'types dropped' in o.key or 'its own keyword' in o.key:
+            yield o
 
 
 @rule('C09', 'R3', 12, 'iterator mapping and validation (C11.R6), validation before output (C14.R8)')
